@@ -15,6 +15,14 @@ CLAIMED = {
    text="Seeded deterministic simulation of the real simplebankedmemory.Comp under a swarm of configurations (banks, interleave, pipeline width/depth/latency, row tracking, buffer sizes, address converters, incl. the shipped MI300A parameter set) with 1-2 scripted requesters over a fault-injecting connection; oracle = flat byte-array model applied in arrival order (exactly-one response, per-byte read values, masked writes, final storage, liveness). One genuine defect found and repaired (fix: commit), one recorded as known finding (pipeline width>1). Exploration, not proof.",
    note="Trusted: akita ports/pipelining/storage as executed, the harness's stubs and model; accesses stay inside one 64-byte block (what caches issue), so overlapping accesses share a bank; known findings listed in known_findings.json are reported as KNOWN-FINDING, anything else is a VIOLATION.",
    ref="6 (C17), 12"),
+ "C18": dict(
+   text="Part (b) of the property - exactly-once remote access routing and the drain handshake - decided by seeded deterministic simulation of 2-4 real rdma.Comp joined by a fault-injecting fabric, each with an L1-side requester, an adversarial L2-side memory and a control agent; online oracle over the histories of all RDMA ports (owner routing, payload unchanged, forwarded/delivered/answered exactly once, drain acknowledged only with zero transactions in flight by the monitor's own count, traffic resumes after restart, liveness). Part (a) (multi-GPU data = single-GPU data on whole platforms) is added by the whole-platform harness when built. Exploration, not proof.",
+   note="Trusted: akita ports and address mappers as executed, the harness's stubs and oracle; links reliable and FIFO per pair; control agent follows the driver's protocol (restart only after drain acknowledgement).",
+   ref="6 (C18)"),
+ "C19": dict(
+   text="Part (a) of the property - page contents, exactly-once completion, queued requests - decided by seeded deterministic simulation of 2-4 real PageMigrationControllers (1-deep ports) with adversarial memories and control agents over a fault-injecting fabric; oracle: at the completion message and at quiescence the destination page equals the source page byte for byte, no other byte of any memory changed, one completion per request in order, liveness under back-pressure. One genuine defect found and repaired (fix: commit). Part (b) (driver handshake and page-table re-homing) is added by the driver harness when built. Exploration, not proof.",
+   note="Trusted: akita ports as executed, the harness's stubs and oracle; links reliable and FIFO per pair; source pages are not written during a run.",
+   ref="6 (C19), 12"),
 }
 
 NOT_APPLICABLE = [
@@ -35,8 +43,6 @@ PENDING = {
  "C11": "check not built yet (planned: copy sequences against a shadow byte array, DESIGN 6 C11)",
  "C12": "check not built yet (planned: driver threads under the controlled goroutine scheduler, DESIGN 6 C12)",
  "C14": "check not built yet (planned: CU in a box, DESIGN 6 C14)",
- "C18": "check not built yet (planned: RDMA ring + multi-GPU whole platform, DESIGN 6 C18)",
- "C19": "check not built yet (planned: PMC ring + driver handshake, DESIGN 6 C19)",
  "C20": "check not built yet (planned: nvidia trace-driven platform on the seeded engine, DESIGN 6 C20)",
 }
 
